@@ -1,9 +1,78 @@
 (* C19 - no aliasing between the library and its callers. Statements only. *)
 From Coq Require Import List ZArith Bool.
-From SB3V Require Import Model.Alias.
+From SB3V Require Import Model.Alias Proofs.AliasProofs.
 Import ListNotations.
+Local Open Scope nat_scope.
 
 (* every component program written from the (repaired) source obeys the copy discipline *)
 Theorem C19_all_components_disciplined : all_disciplined = true.
 Proof. vm_compute. reflexivity. Qed.
 Print Assumptions C19_all_components_disciplined.
+
+(* ONE call of ANY disciplined program, on any heap, for any array computations F:
+   caller-owned locations keep their contents; results are arguments or fresh objects that are not
+   retained; live state is old library state or fresh; references stay valid *)
+Theorem C19_call_frame :
+  forall (F : nat -> list (list Z) -> list Z) (args : list loc) (h0 : heap) (sl0 : list loc),
+  (forall l, In l sl0 -> l < length h0) ->
+  forall (p : prog) (dd0 : list loc),
+  disciplined (length args) (length sl0) p = true ->
+  let s := run F p args h0 sl0 dd0 in
+  (forall l, l < length h0 -> ~ In l sl0 -> content (s_heap s) l = content h0 l) /\
+  (forall l, In l (s_rets s) -> In l args \/ (length h0 <= l /\ ~ In l (s_slots s))) /\
+  (forall l, In l (s_slots s) -> In l sl0 \/ length h0 <= l) /\
+  length h0 <= length (s_heap s) /\
+  (forall l, In l (s_slots s) -> l < length (s_heap s)) /\
+  (forall l, In l (s_rets s) -> In l args \/ l < length (s_heap s)) /\
+  length (s_slots s) = length sl0.
+Proof. exact disciplined_frame. Qed.
+Print Assumptions C19_call_frame.
+
+(* ONE call from two heaps that agree on the live library objects and the arguments gives the same
+   results (locations and contents) and the same library state *)
+Theorem C19_call_noninterference :
+  forall F p args sl0 dd0 h1 h2,
+  length h1 = length h2 ->
+  (forall l, In l sl0 \/ In l args -> content h1 l = content h2 l) ->
+  let s1 := run F p args h1 sl0 dd0 in
+  let s2 := run F p args h2 sl0 dd0 in
+  s_slots s1 = s_slots s2 /\ s_dead s1 = s_dead s2 /\ s_rets s1 = s_rets s2 /\
+  length (s_heap s1) = length (s_heap s2) /\
+  (forall l, In l sl0 \/ In l args \/ length h1 <= l -> content (s_heap s1) l = content (s_heap s2) l).
+Proof. exact call_noninterference. Qed.
+Print Assumptions C19_call_noninterference.
+
+(* EVERY history of disciplined calls, caller allocations and caller writes: no call changes the
+   contents of anything the caller holds (arguments passed, results returned earlier) *)
+Theorem C19_history_frame :
+  forall F nslots es w,
+  Inv nslots w -> events_disciplined nslots es = true -> frame_holds F w es.
+Proof. exact history_frame. Qed.
+Print Assumptions C19_history_frame.
+
+(* EVERY history: extra caller writes (in the second run only) to objects the caller holds and does
+   not hand back to the library never change what any call returns *)
+Theorem C19_history_noninterference :
+  forall F nslots w pes,
+  Inv nslots w -> calls_disciplined nslots pes = true -> clean [] pes = true ->
+  run_hist F w (left_run pes) = run_hist F w (right_run pes).
+Proof. exact history_noninterference. Qed.
+Print Assumptions C19_history_noninterference.
+
+(* non-vacuity: VecFrameStack-like component (1 live slot), caller allocates actions, steps, scribbles
+   over the returned observation (location 8), steps again *)
+Definition F1 : nat -> list (list Z) -> list Z := fun f cs => Z.of_nat f :: concat cs.
+Definition ex_w : world := mk_world [[0%Z]] [0] [] [].
+Definition ex_pes : list pevent :=
+  [ Both (EAlloc [5%Z]); Both (ECall framestack_step [1]); Extra 8 [77%Z]; Both (ECall framestack_step [1]) ].
+Example C19_ex_inv : Inv 1 ex_w.
+Proof. unfold Inv, ex_w; simpl. split; [reflexivity|]. split; [intros l [<-|[]]; auto | intros l []]. Qed.
+Example C19_ex_hyps : calls_disciplined 1 ex_pes = true /\ clean [] ex_pes = true.
+Proof. split; vm_compute; reflexivity. Qed.
+(* location 8 is the observation returned by the first step, so the extra write hits a held object *)
+Example C19_ex_dirty_is_held : knows (final_world F1 ex_w (left_run (firstn 2 ex_pes))) 8 = true.
+Proof. vm_compute; reflexivity. Qed.
+Example C19_ex_outputs_equal :
+  run_hist F1 ex_w (left_run ex_pes) = run_hist F1 ex_w (right_run ex_pes) /\
+  length (run_hist F1 ex_w (left_run ex_pes)) = 2.
+Proof. split; vm_compute; reflexivity. Qed.
